@@ -52,7 +52,8 @@ def check_scenario_run(chk, ix, rules, tier="quick", mutate=None):
     chk.absorb(it)
     for ex in exits:
         _one(chk, fi, ex, rules)
-    if tier == "thorough" and "S3" in rules:
+    if rules & {"S3", "V2"}:
+        # the documented switch Scenario.continue_after_failed_step: the remaining steps run, the result still says "failed"
         it2, exits2 = explore_scenario_run(ix, continue_after_failed=True, mutate=mutate)
         chk.absorb(it2)
         for ex in exits2:
